@@ -112,9 +112,142 @@ def has_uncached(case, t, overridden):
 PAUSES = [None, None, 0, 3000, 7000, 10000, 15000, 20000, 40000]
 
 
+def ctx_nodes(case, t):
+    """nodes reachable from task t (through the overrides too) that take the Context"""
+    roots = [d for d, _ in case["tasks"][t]["deps"]] + [b for _, b in case.get("overrides") or []]
+    return [k for k in reachable(case["nodes"], roots) if case["nodes"][k].get("ctx")]
+
+
+def gen_muts(r, case, m, n=None):
+    """scripted writes of one execution to what it was given: a label set in place by a dependency (while opening /
+    in its teardown) or by the task function (at its start / after its awaits), the built-in Context.requeue(), the
+    args list, the kwargs dict, ctx.message re-assigned to a private copy.  Writes that would change the own call
+    (args / kwargs before the task function is called) are not generated."""
+    t = case["tasks"][m["task"]]
+    opts = []
+    if t.get("ctx"):
+        opts += [("start", None, "label")] * 3 + [("end", None, "label")] * 3
+        opts += [("start", None, "arg"), ("end", None, "arg"), ("start", None, "kwarg"), ("end", None, "kwarg"),
+                 ("start", None, "setmsg"), ("end", None, "setmsg")]
+        if not t.get("sync"):
+            opts += [("end", None, "requeue")] * 4
+    for k in ctx_nodes(case, m["task"]):
+        opts += [("node", k, "label")] * 2 + [("node", k, "setmsg")]
+        if case["nodes"][k]["style"] in YIELDING:
+            opts += [("close", k, "label")] * 2
+    if not opts:
+        return
+    muts = []
+    for _ in range(n or r.choice([1, 1, 2, 3])):
+        at, node, op = r.choice(opts)
+        mu = {"at": at, "op": op}
+        if node is not None:
+            mu["node"] = node
+        if mu not in muts:
+            muts.append(mu)
+    if any(mu["op"] == "requeue" for mu in muts):
+        m["outcome"] = "noresult"       # Context.requeue() raises NoResultError
+        m.pop("timeout", None)
+        if m.get("dur"):
+            m["dur"] = [min(x, 30000) for x in m["dur"]]
+    m["muts"] = muts
+
+
+def alias_tids(r, msgs):
+    """two or three deliveries carry one task id (redelivery / duplicate kick); every message gets an explicit id, so
+    that dropping messages while shrinking does not change who shares an id"""
+    ids = list(range(len(msgs)))
+    a = r.randrange(len(msgs))
+    same = []
+    for b in r.sample([x for x in ids if x != a], min(len(msgs) - 1, r.choice([1, 1, 2]))):
+        ids[b] = a
+        # a true redelivery: the very same bytes once more (same task, same content, same labels / kwargs)
+        if r.random() < .4 and msgs[b].get("timeout") is None and msgs[a].get("timeout") is None:
+            same.append(b)
+    for k, (m, t) in enumerate(zip(msgs, ids)):
+        m["tid"] = t
+        m["content"] = t if k in same else k
+        if k in same:
+            m["task"] = msgs[a]["task"]
+            for key in ("nolabels", "kw"):
+                if key in msgs[a]:
+                    m[key] = msgs[a][key]
+                else:
+                    m.pop(key, None)
+
+
+def gen_mutation_case(r):
+    """aimed at what executions share by accident: 2-5 deliveries to one or two tasks (declared with or without
+    labels), some without any labels, some with one task id, concurrent or one after another, part of them writing to
+    the message they were given"""
+    nn = r.choice([1, 1, 2, 2, 3, 4])
+    nodes = gen_graph(r, nn)
+    for n in nodes:
+        n["ctx"] = n["ctx"] or r.random() < .7
+    tasks = []
+    for t in range(r.choice([1, 2])):
+        deps = [[r.randrange(nn), r.random() < .7] for _ in range(r.choice([0, 1, 1, 2]))]
+        spec = {"deps": deps, "ctx": r.random() < .9, "sync": r.random() < .15}
+        if r.random() < .4:
+            spec["labels"] = {"decl": 50 + t}
+        tasks.append(spec)
+    case = {"nodes": nodes, "tasks": tasks, "msgs": [], "propagate": r.random() < .5,
+            "ack": r.choice(["when_received", "when_executed", "when_saved", "when_saved"]),
+            "middleware": r.random() < .6, "via_inmemory": r.random() < .3, "user_ctx": r.choice([None, 7])}
+    k = r.choice([2, 2, 3, 3, 4, 5])
+    bare = r.choice(["all", "all", "mixed", "mixed", "none"])
+    spacing = r.choice(["concurrent", "concurrent", "sequential", "mixed"])
+    main_task = r.randrange(len(tasks))
+    for i in range(k):
+        t = main_task if r.random() < .7 else r.randrange(len(tasks))
+        seq = spacing == "sequential" or (spacing == "mixed" and r.random() < .5)
+        m = {"task": t, "start": i * 400000 if seq else r.choice([0, 0, 2000, 5000, 10000]),
+             "pauses": [r.choice(PAUSES) for _ in range(r.choice([1, 2, 3]))],
+             "dur": [] if tasks[t]["sync"] else [r.choice([0, 1000, 5000, 12000, 30000]) for _ in range(r.choice([0, 1, 1, 2]))],
+             "ackable": r.choice(["sync", "sync", "async", "none"]), "kw": r.random() < .7,
+             "outcome": r.choice(["return", "return", "return", "raise", "noresult"])}
+        if bare == "all" or (bare == "mixed" and r.random() < .5):
+            m["nolabels"] = True
+        if r.random() < .3:
+            m["save_pause"] = r.choice([0, 5000, 15000])
+        case["msgs"].append(m)
+        if r.random() < .6:
+            gen_muts(r, case, m)
+    if r.random() < .3:
+        alias_tids(r, case["msgs"])
+    return case
+
+
+def sprinkle(r, case):
+    """the same dimensions, thinly, over the ordinary cases"""
+    msgs = case["msgs"]
+    x = r.random()
+    if x < .08 and len(msgs) >= 2:
+        alias_tids(r, msgs)
+    elif x < .14:
+        for m in msgs:
+            if m.get("timeout") is None and r.random() < .6:
+                m["nolabels"] = True
+    elif x < .20:
+        for m in msgs:
+            if r.random() < .5:
+                gen_muts(r, case, m, 1)
+    elif x < .23:
+        for t in case["tasks"]:
+            t["labels"] = {"decl": 50}
+    return case
+
+
 def gen_case(r):
-    if r.random() < .12:
+    x = r.random()
+    if x < .12:
         return gen_override_case(r)
+    if x < .22:
+        return gen_mutation_case(r)
+    return sprinkle(r, gen_plain_case(r))
+
+
+def gen_plain_case(r):
     nn = r.choice([1, 2, 3, 3, 4, 4, 5, 6, 7])
     nodes = gen_graph(r, nn)
     tasks = []
@@ -171,19 +304,90 @@ class Derived:
     pass
 
 
-def idx_of_tid(tid):
-    if isinstance(tid, str) and tid[:1] == "m" and tid[1:].isdigit():
-        return int(tid[1:])
-    return None
+def sent_tid(case, i):
+    return "m%d" % case["msgs"][i].get("tid", i)
 
 
-def echo_owner(echo, kw_sent):
-    """the single execution an echoed Context belongs to, or None when its parts disagree"""
-    if echo is None:
+def content(case, i):
+    """what delivery i carries as first argument / `who` label / `kw` kwarg: its own index, unless the message is a
+    redelivery of another one (same task id, same content, same bytes)"""
+    return case["msgs"][i].get("content", i)
+
+
+def sent_state(case, i):
+    """the message delivery i carried, as the driver sent it (deps_driver._run_case)"""
+    m = case["msgs"][i]
+    c = content(case, i)
+    labels = {} if m.get("nolabels") else {"who": c}
+    if m.get("timeout") is not None and not m.get("nolabels"):
+        labels["timeout"] = m["timeout"] / 1_000_000
+    return {"tid": sent_tid(case, i), "args": [c], "kwargs": {"kw": c} if m.get("kw", True) else {}, "labels": labels}
+
+
+def carrier(case, c, reader):
+    """the delivery that carried content c: the reader itself when it did, else the first one that did"""
+    if not isinstance(c, int) or isinstance(c, bool):
         return None
-    j = idx_of_tid(echo[0])
-    parts = [j, echo[1], echo[2]] + ([echo[3]] if kw_sent else [])
-    return j if j is not None and all(p == j for p in parts) else None
+    if 0 <= reader < len(case["msgs"]) and content(case, reader) == c:
+        return reader
+    return next((k for k in range(len(case["msgs"])) if content(case, k) == c), None)
+
+
+def declared_labels(case, i):
+    return case["tasks"][case["msgs"][i]["task"]].get("labels") or {}
+
+
+REQUEUE = "X-Taskiq-requeue"
+
+
+def apply_mut(i, view, op):
+    """the effect of one scripted write of execution i (deps_driver.apply_muts / Context.requeue) on the message it
+    holds"""
+    if op == "label":
+        view["labels"]["w%d" % i] = i
+    elif op == "arg":
+        view["args"].append(100 + i)
+    elif op == "kwarg":
+        view["kwargs"]["x%d" % i] = i
+    elif op == "requeue":
+        view["labels"][REQUEUE] = str(int(view["labels"].get(REQUEUE, 0)) + 1)
+
+
+def labels_own(obs, exp, declared):
+    """obs is what execution i may see as its labels: the labels its message carried plus its own writes (exp).
+    Labels the own *task* was declared with are tolerated in addition (they are no other message's)."""
+    if not isinstance(obs, dict):
+        return False
+    for k, v in exp.items():
+        if k not in obs or obs[k] != v or type(obs[k]) is not type(v):
+            return False
+    return all(k in exp or (k in declared and declared[k] == v) for k, v in obs.items())
+
+
+def state_own(obs, exp, declared):
+    return (isinstance(obs, dict) and obs.get("tid") == exp["tid"] and obs.get("args") == exp["args"]
+            and obs.get("kwargs") == exp["kwargs"] and labels_own(obs.get("labels"), exp["labels"], declared))
+
+
+def _mark(prefix, key):
+    return int(key[len(prefix):]) if isinstance(key, str) and key.startswith(prefix) and key[len(prefix):].isdigit() else None
+
+
+def echo_owner(case, echo, reader):
+    """the single delivery an echoed message belongs to (for the heap model, which holds whose Context a cell has),
+    or None when its parts disagree or it carries the write marks of another execution"""
+    if not isinstance(echo, dict):
+        return None
+    a = echo.get("args") or [None]
+    j = carrier(case, a[0], reader)
+    if j is None:
+        return None
+    s = sent_state(case, j)
+    lab, kws = echo.get("labels") or {}, echo.get("kwargs") or {}
+    if echo.get("tid") != s["tid"] or lab.get("who") != s["labels"].get("who") or kws.get("kw") != s["kwargs"].get("kw"):
+        return None
+    marks = [_mark("w", k) for k in lab] + [_mark("x", k) for k in kws] + [v - 100 for v in a[1:] if isinstance(v, int)]
+    return j if all(m is None or m == j for m in marks) else None
 
 
 def derive(case, obs):
@@ -201,14 +405,24 @@ def derive(case, obs):
         d.inst = {}          # token -> instance number (order of opening)
         d.inst_node = []     # instance -> node
         d.inst_cid = []      # instance -> cid it was appended to
+        d.foreign_closes = []  # (global idx, node, execution that ran the teardown) - teardowns run by another execution
         ex.append(d)
+    tok_owner = {}
     for g, e in enumerate(log):
         who = e[1] if len(e) > 1 else None
         if e[0] == "end_of_run":
             continue
+        if e[0] in ("close", "closed") and e[3] in tok_owner:
+            # a teardown belongs to the execution the dependency was opened for, whoever runs it (executions are
+            # told apart by delivery, never by task id); a teardown run by another execution is recorded as such
+            if tok_owner[e[3]] != who:
+                ex[tok_owner[e[3]]].foreign_closes.append((g, e[2], who))
+            who = tok_owner[e[3]]
         if not isinstance(who, int) or not 0 <= who < n:
             errs.append("event outside any execution: %r" % (e,))
             continue
+        if e[0] == "enter":
+            tok_owner[e[3]] = who
         d = ex[who]
         d.ev.append((g, e))
         if e[0] == "ctx":
@@ -268,6 +482,10 @@ def finish(case, d, log):
     m = case["msgs"][d.i]
     d.msg = m
     d.kw_sent = bool(m.get("kw", True))
+    d.sent = sent_state(case, d.i)
+    d.timeline = []           # (global idx, "read" / "mut" / "save", data) in the order the execution did them
+    d.muts = []               # (global idx, op, at)
+    d.cb_start_at = d.cb_done_at = None
     d.top = d.ctxs[0] if d.ctxs else None
     d.tree = tree_items(d, d.top) if d.top is not None else []
     d.opens = []              # instances in opening order
@@ -301,6 +519,13 @@ def finish(case, d, log):
             inst = d.inst[e[3]]
             d.opens.append(inst)
             d.effs.append("FOpen %d" % inst)
+        elif k == "cb_start":
+            d.cb_start_at = g
+        elif k == "mut":
+            d.muts.append((g, e[2], e[3]))
+            d.timeline.append((g, "mut", e[2]))
+        elif k == "read":
+            d.reads.append((g, e[3] if d.ctxs else None, e[4], e[2]))
         elif k == "enter":
             if e[5] is not None:
                 d.reads.append((g, ctxnum.get(e[4]), e[5], "node %d" % e[2]))
@@ -322,6 +547,8 @@ def finish(case, d, log):
             d.effs.append("FTaskEnd %s" % COQ_OUT[e[2]])
         elif k == "close":
             inst = d.inst.get(e[3])
+            if len(e) > 6 and e[6] is not None and e[4] != "GeneratorExit":
+                d.reads.append((g, ctxnum.get(e[5]), e[6], "teardown of node %d" % e[2]))
             if e[4] == "GeneratorExit":
                 d.gc_closes.append((g, inst))
             elif inst is None:
@@ -349,12 +576,16 @@ def finish(case, d, log):
                 d.effs[pending_save] = "FSaveFail"
         elif k == "cb_done":
             d.cb_done = e[2]
+            d.cb_done_at = g
     if not d.saves:
         # nothing marks a skipped save: place it where the model has it (before a trailing when_saved ack)
         if ack == "ASaved" and d.effs and d.effs[-1] == "FAck ASaved":
             d.effs.insert(len(d.effs) - 1, "FSaveSkip")
         else:
             d.effs.append("FSaveSkip")
+    d.timeline += [(g, "read", (c, echo, what)) for g, c, echo, what in d.reads]
+    d.timeline += [(g, "save", (tid, s)) for g, tid, s in d.saves]
+    d.timeline.sort(key=lambda x: x[0])
     d.error_found = d.fail or (d.outcome is not None and d.outcome != "return")
     d.resolution = "RFail" if d.fail else ("(RDone %s)" % COQ_OUT[d.outcome] if d.outcome else None)
     d.expected_err = "DepFail" if d.fail else ERR_OF.get(d.outcome)
@@ -466,14 +697,43 @@ def sig_subcontext_teardown_order(f):
 
 # --------------------------------------------------------------------------- oracle C06
 def oracle_c06(case, d, all_execs):
+    """literal transcription of C06 over the events of one execution.  "Its own message" is the message the delivery
+    carried, as sent, plus what this execution itself wrote to it (its logged `mut`s, replayed here in order)."""
+    import copy
     out = []
     i = d.i
-    own = ["m%d" % i, i, i, i if d.kw_sent else None]
-    for g, c, echo, what in d.reads:
-        if echo != own:
-            out.append(("%s of one execution observed another message's Context" % (
-                "a dependency" if what != "task" else "the task function"),
-                dict(execution=i, reader=what, saw=echo, at=g), own, {"kind": "context"}))
+    declared = declared_labels(case, i)
+    orig = copy.deepcopy(d.sent)     # the message object run_task holds
+    view = orig                      # the message ctx.message refers to (a private copy after `setmsg`)
+    for g, kind, data in d.timeline:
+        if kind == "mut":
+            if data == "setmsg":
+                view = copy.deepcopy(view)
+            else:
+                apply_mut(i, view, data)
+        elif kind == "read":
+            c, echo, what = data
+            if state_own(echo, view, declared):
+                continue
+            who = "the task function" if what == "task" else "a dependency"
+            foreign = (not isinstance(echo, dict) or echo.get("tid") != view["tid"]
+                       or (echo.get("args") or [None])[0] != view["args"][0]
+                       or (echo.get("labels") or {}).get("who") != view["labels"].get("who")
+                       or (echo.get("kwargs") or {}).get("kw") != view["kwargs"].get("kw"))
+            if foreign:
+                out.append(("%s of one execution observed another message's Context" % who,
+                            dict(execution=i, reader=what, saw=echo, at=g), copy.deepcopy(view), {"kind": "context"}))
+            else:
+                out.append(("%s of one execution observed labels / arguments that are not its own message's "
+                            "(as sent, plus its own writes)" % who,
+                            dict(execution=i, reader=what, saw=echo, at=g), copy.deepcopy(view), {"kind": "foreign-write"}))
+        elif kind == "save":
+            tid, s = data
+            if "labels" in s and not labels_own(s["labels"], orig["labels"], declared):
+                out.append(("the result stored for a message carries labels that are not its own message's "
+                            "(as sent, plus its own writes)",
+                            dict(execution=i, task_id=tid, labels=s["labels"], at=g), copy.deepcopy(orig["labels"]),
+                            {"kind": "result-labels"}))
     want_tag = case.get("user_ctx") if case.get("user_ctx") is not None else -1
     for g, node, tag in d.user_reads:
         if tag != want_tag:
@@ -481,14 +741,14 @@ def oracle_c06(case, d, all_execs):
                         dict(execution=i, node=node, tag=tag, at=g), want_tag, {"kind": "user"}))
     if d.body is not None:
         p = d.body[1]
-        if p.get("arg") != i or p.get("kw") != (i if d.kw_sent else -1):
+        if p.get("arg") != d.sent["args"][0] or p.get("kw") != d.sent["kwargs"].get("kw", -1):
             out.append(("the task function received another message's arguments",
-                        dict(execution=i, arg=p.get("arg"), kw=p.get("kw")), dict(arg=i), {"kind": "args"}))
+                        dict(execution=i, arg=p.get("arg"), kw=p.get("kw")), dict(arg=d.sent["args"][0]), {"kind": "args"}))
     for g, tid, s in d.saves:
         payload = s.get("ret") if not s.get("is_err") else s.get("err_payload")
-        bad = tid != "m%d" % i or s.get("who") != i
+        bad = tid != d.sent["tid"] or s.get("who") != d.sent["labels"].get("who")
         if isinstance(payload, dict):
-            bad = bad or payload.get("arg") != i or (payload.get("echo") is not None and payload["echo"] != own)
+            bad = bad or payload.get("arg") != d.sent["args"][0] or (d.body is not None and payload != d.body[1])
         if bad:
             out.append(("the result stored under a task id was not produced by the message carrying that id",
                         dict(execution=i, task_id=tid, result=s), "own id, own payload", {"kind": "result"}))
@@ -516,6 +776,56 @@ def oracle_c06(case, d, all_execs):
     return out
 
 
+def sharing_profile(case, ex):
+    """evidence keys of one case for the dimensions executions could share by accident: label-less messages, tasks
+    declared with labels, in-place writes followed by reads of other executions, one task id on several deliveries"""
+    keys = []
+    bare = [d for d in ex if d.msg.get("nolabels")]
+    keys.append("labels: %s" % ("none of the messages carries any" if len(bare) == len(ex) else
+                                "some messages carry none" if bare else "every message carries its own"))
+    if any(t.get("labels") for t in case["tasks"]):
+        keys.append("task declared with labels" + (", message without labels" if any(
+            declared_labels(case, d.i) for d in bare) else ""))
+    for d in ex:
+        for g, op, at in d.muts:
+            keys.append("write:%s@%s" % (op, at))
+    seen = set()
+    for x in ex:
+        for gm, op, at in x.muts:
+            for y in ex:
+                if y is x or not any(g > gm for g, _, _, _ in y.reads):
+                    continue
+                same = "same task" if y.msg["task"] == x.msg["task"] else "another task"
+                if y.cb_start_at is not None and y.cb_start_at < gm:
+                    when = "concurrent"
+                elif x.cb_done_at is not None and y.cb_start_at is not None and y.cb_start_at > x.cb_done_at:
+                    when = "later (writer finished)"
+                else:
+                    when = "started while the writer ran"
+                seen.add("read after a write of another execution: %s, %s" % (same, when))
+                if op in ("label", "requeue") and x.msg.get("nolabels") and y.msg.get("nolabels") and same == "same task":
+                    seen.add("label write, then read by another label-less execution of the same task")
+    keys += sorted(seen)
+    tids = {}
+    for d in ex:
+        tids.setdefault(d.sent["tid"], []).append(d)
+    dup = [v for v in tids.values() if len(v) > 1]
+    if dup:
+        over = any(a.cb_start_at is not None and b.cb_start_at is not None and a.cb_done_at is not None
+                   and b.cb_done_at is not None and a.cb_start_at < b.cb_done_at and b.cb_start_at < a.cb_done_at
+                   for v in dup for a in v for b in v if a.i < b.i)
+        both = any(a.opens and b.opens and a.cb_start_at < b.cb_done_at and b.cb_start_at < a.cb_done_at
+                   for v in dup for a in v for b in v if a.i < b.i and None not in (
+                       a.cb_start_at, b.cb_start_at, a.cb_done_at, b.cb_done_at))
+        keys.append("one task id on several deliveries: %s" % (
+            "overlapping, both with open dependencies" if both else "overlapping" if over else "one after another"))
+        if any(content(case, a.i) == content(case, b.i) for v in dup for a in v for b in v if a.i < b.i):
+            keys.append("redelivery of the same bytes")
+    else:
+        keys.append("task ids: all distinct")
+    return keys
+
+
 # --------------------------------------------------------------------------- C06 action sequence
 def c06_actions(case, ex, log):
     """global (action, observed value) sequence for the heap model"""
@@ -530,18 +840,19 @@ def c06_actions(case, ex, log):
             elif e[0] == "task_end" and e[2] in ("return", "raise", "base"):
                 by_g.setdefault(g, []).append(("AResult %d" % d.i, "VUnit"))
         for g, c, echo, what in d.reads:
-            j = echo_owner(echo, d.kw_sent)
+            j = echo_owner(case, echo, d.i)
             if c is None:
                 continue
             by_g.setdefault(g, []).append(("ARead %d %d" % (d.i, c), "VCtx %s" % C.copt(j, str)))
         if d.body is not None:
             g, p = d.body
-            a = p.get("arg")
-            by_g.setdefault(g, []).append(("ABody %d" % d.i, "VMsg %d" % (a if isinstance(a, int) and 0 <= a < 100 else 99)))
+            a = carrier(case, p.get("arg"), d.i)
+            by_g.setdefault(g, []).append(("ABody %d" % d.i, "VMsg %d" % (a if a is not None else 99)))
         for g, tid, s in d.saves:
             payload = s.get("ret") if not s.get("is_err") else s.get("err_payload")
-            prod = payload.get("arg") if isinstance(payload, dict) else None
-            t = idx_of_tid(tid)
+            prod = carrier(case, payload.get("arg"), d.i) if isinstance(payload, dict) else None
+            # the model names a task id by the execution that carried it: several deliveries may carry one id
+            t = d.i if tid == d.sent["tid"] else next((k for k in range(len(case["msgs"])) if sent_tid(case, k) == tid), None)
             by_g.setdefault(g, []).append(("ASave %d" % d.i, "VSaved %d %s" % (t if t is not None else 99, C.copt(prod, str))))
     for g in sorted(by_g):
         acts += by_g[g]
@@ -566,6 +877,9 @@ def _drop_node(case, k):
                 del m["fail"]
             else:
                 f["node"] = ren[f["node"]]
+        if m.get("muts"):
+            m["muts"] = [dict(mu, node=ren[mu["node"]]) if mu.get("node") is not None else mu
+                         for mu in m["muts"] if mu.get("node") != k]
     return c
 
 
@@ -637,6 +951,22 @@ def reductions(case):
                 variant(lambda c, i=i: c["msgs"][i].update(pauses=c["msgs"][i]["pauses"][:-1]))
         if m.get("ackable", "sync") != "sync":
             variant(lambda c, i=i: c["msgs"][i].update(ackable="sync"))
+        if m.get("muts"):
+            variant(lambda c, i=i: c["msgs"][i].pop("muts"))
+            if len(m["muts"]) > 1:
+                for j in range(len(m["muts"])):
+                    variant(lambda c, i=i, j=j: c["msgs"][i]["muts"].pop(j))
+        if m.get("nolabels"):
+            variant(lambda c, i=i: c["msgs"][i].pop("nolabels"))
+    if any("tid" in m for m in case["msgs"]):
+        def untid(c):
+            for m in c["msgs"]:
+                m.pop("tid", None)
+                m.pop("content", None)
+        variant(untid)
+    for t in range(len(case["tasks"])):
+        if case["tasks"][t].get("labels"):
+            variant(lambda c, t=t: c["tasks"][t].pop("labels"))
     for j in range(len(case.get("overrides") or [])):
         variant(lambda c, j=j: c["overrides"].pop(j))
     if case.get("user_ctx") is not None:
